@@ -217,7 +217,9 @@ func (b *Bridge) Pool() []*crosschaintypes.OutgoingTransferTx {
 	return b.K.GetUnbatchedTransactions(b.C.Ctx)
 }
 
-func (b *Bridge) Batches() []*crosschaintypes.OutgoingTxBatch { return b.K.GetOutgoingTxBatches(b.C.Ctx) }
+func (b *Bridge) Batches() []*crosschaintypes.OutgoingTxBatch {
+	return b.K.GetOutgoingTxBatches(b.C.Ctx)
+}
 
 func (b *Bridge) Calls() []*crosschaintypes.OutgoingBridgeCall {
 	var out []*crosschaintypes.OutgoingBridgeCall
